@@ -304,8 +304,9 @@ type vfC51Event struct {
 	marker   int
 	rpc      int
 	cluster  string
-	empty    bool // state without cluster-manager config (error path)
-	icpt     int  // select: id of the HTTP-filter interceptor the RPC is bound to (0 = none); iclose: the interceptor closed
+	empty    bool            // state without cluster-manager config (error path)
+	routes   map[string]bool // state: children the routes of the state's XDSConfig (= of its selector) refer to
+	icpt     int             // select: id of the HTTP-filter interceptor the RPC is bound to (0 = none); iclose: the interceptor closed
 }
 
 type vfC51SC struct {
@@ -401,6 +402,7 @@ func (c *vfC51CC) UpdateState(s resolver.State) error {
 		}
 	}
 
+	ev.routes = rcl
 	c.sel.Lock()
 	c.mu.Lock()
 	c.log = append(c.log, ev)
@@ -803,6 +805,10 @@ func vfC51Run(t *testing.T, p vfC51Plan) (res vk.Result) {
 			// the last RPC committed, then revived the not-yet-pruned entry for a
 			// route configuration that re-added the cluster
 			r.Sig = "c51.released_cluster_entry_revived"
+		} else if dropped != "" && vfC51RevivedAfterStop(cc, dropped) {
+			// variant of the same root cause (notes/C51.md): the resolver's last reference
+			// was dropped by stop() of the replaced selector, not by an RPC commit
+			r.Sig = "c51.stopped_selector_cluster_entry_revived"
 		}
 		return &r
 	}
@@ -829,7 +835,8 @@ func vfC51Run(t *testing.T, p vfC51Plan) (res vk.Result) {
 	}
 	if !converged {
 		// not a verdict by itself (real-time wait), but reported for the floor
-		return inconclusive("no_convergence have=" + vfC51Keys(lastChildren) + " want=" + vfC51Keys(want))
+		pj, _ := json.Marshal(p)
+		return inconclusive("no_convergence have=" + vfC51Keys(lastChildren) + " want=" + vfC51Keys(want) + " plan=" + string(pj))
 	}
 	// white-box, read-only, inside the serializer: refcounts after everything is committed
 	type snap struct {
@@ -941,6 +948,53 @@ func vfC51CheckLog(cc *vfC51CC) (msg string, watchDropped string) {
 		}
 	}
 	return "", ""
+}
+
+// vfC51RevivedAfterStop is the signature predicate of the second shape of the
+// stale-entry defect: some state replaced a selector routing to x by one not
+// routing to x while no RPC on x was open (stop() of the replaced selector drops
+// the resolver's last reference, the cluster subscription is released), x then
+// stayed a cluster-manager child in every state (the dead entry was never pruned)
+// until a state whose selector routes to x again (the dead entry was revived).
+func vfC51RevivedAfterStop(cc *vfC51CC, x string) bool {
+	cc.mu.Lock()
+	log := append([]vfC51Event(nil), cc.log...)
+	cc.mu.Unlock()
+	open := map[int]string{}
+	var prev *vfC51Event
+	armed := false
+	for i := range log {
+		ev := &log[i]
+		switch ev.kind {
+		case "select":
+			open[ev.rpc] = ev.cluster
+		case "commit":
+			delete(open, ev.rpc)
+		case "state":
+			if ev.empty {
+				continue
+			}
+			if armed && !ev.children[x] {
+				armed = false // pruned in between: a later entry for x is a fresh one
+			}
+			if armed && ev.routes[x] {
+				return true
+			}
+			if prev != nil && prev.routes[x] && !ev.routes[x] {
+				inUse := false
+				for _, cl := range open {
+					if cl == x {
+						inUse = true
+					}
+				}
+				if !inUse {
+					armed = true
+				}
+			}
+			prev = ev
+		}
+	}
+	return false
 }
 
 func TestVerifC51(t *testing.T) {
